@@ -1193,6 +1193,10 @@ class CBCFileIO(_CryptoFileBase):
                 # seek back one block to read it as iv
                 self._reader.seek(-0x10 - before, 1)
                 iv = self._reader.read(0x10)
+                if len(iv) != 0x10:
+                    # positioned past the end of the data, there is nothing to decrypt
+                    self._reader.seek(offset - self._reader.tell(), 1)
+                    return b''
             # this is done since we may not know the original size of the file
             # and the caller may have requested -1 to read all the remaining data
             data_before = self._reader.read(before)
@@ -1201,9 +1205,10 @@ class CBCFileIO(_CryptoFileBase):
             data_total_len = len(data_before) + data_requested_len
             if data_total_len % 16:
                 data_after = self._reader.read(16 - (data_total_len % 16))
-                self._reader.seek(-len(data_after), 1)
             else:
                 data_after = b''
+            # leave the position at the end of the data returned
+            self._reader.seek(offset + data_requested_len - self._reader.tell(), 1)
             cipher = self._crypto.create_cbc_cipher(self._keyslot, iv)
             # decrypt data, and cut off extra bytes
             return cipher.decrypt(
